@@ -7,8 +7,8 @@
 From Coq Require Import List NArith ZArith Bool.
 Import ListNotations.
 From Base Require Import PyStr CliTypes Regex.
-From Model Require Import Ast Typography Render.
-From Proofs Require Import RegexFacts TypoProofs EllProofs RenderProofs TotalProofs.
+From Model Require Import Ast Typography Render Pipeline.
+From Proofs Require Import RegexFacts TypoProofs EllProofs RenderProofs TotalProofs WrapperTotal PipelineTotal.
 
 (* 1. The regex engine always answers (no fuel exhaustion), for every pattern and input. *)
 Theorem C12_regex_total : forall p s,
@@ -53,3 +53,23 @@ Theorem C12_render_total : forall wrapper refdefs mode,
   forall blocks, Forall tables_ok blocks -> exists t, render_doc wrapper mode refdefs blocks = ret t.
 Proof. exact render_doc_total. Qed.
 Print Assumptions C12_render_total.
+
+(* 6. The whole function: the model of fill_markdown (frontmatter split, dedent/strip, tag pre-pass, the
+   parser as an ARBITRARY function returning documents whose tables have a header row, tree rewrites with
+   smart quotes / ellipses / cleanups, line wrappers with word splitter, tag and hard-break handling,
+   renderer) never raises, for every input text and every option set.  The certificates are boolean
+   facts about the regexes translated from the source on this run (shape of QUOTE_PATTERN, ELLIPSIS_PATTERN
+   and the two adjacent-tag patterns). *)
+Theorem C12_certificates : all_certs = true.
+Proof. vm_compute. reflexivity. Qed.
+Print Assumptions C12_certificates.
+
+Theorem C12_fill_markdown_never_raises : forall PARSE o text,
+  (forall s, Forall tables_ok (d_blocks (PARSE s))) ->
+  exists out, fill_markdown PARSE o text = ret out.
+Proof. exact (fill_markdown_total C12_certificates). Qed.
+Print Assumptions C12_fill_markdown_never_raises.
+
+Theorem C12_line_wrappers_never_raise : forall o t i1 i2, exists r, md_wrapper o t i1 i2 = ret r.
+Proof. exact (md_wrapper_total C12_certificates). Qed.
+Print Assumptions C12_line_wrappers_never_raise.
